@@ -92,6 +92,29 @@ Theorem C12_wf_checked :
 Proof. exact wf_b_sound. Qed.
 Print Assumptions C12_wf_checked.
 
+(* ---- every name of a declaration; known finding [name_on_continuation_line] ---- *)
+
+(* Full statement one would like: for EVERY name of a declaration, Doc / Comment at the name's
+   position are the declaration's.  It holds when no name sits on a continuation line ... *)
+Theorem C12_names_partial :
+  forall evs leads, wf evs leads -> name_on_continuation_line evs = false ->
+  forall d l, In d (decls_of evs) -> In l (d_names d) ->
+    doc_of true true (build true evs) (p_file (d_pos d)) l
+    = extract_tags true [] (doc_lines_above leads (p_file (d_pos d)) (p_line (d_pos d)))
+    /\ (forall c, d_cmt d = Some c ->
+          comment_of true (build true evs) (p_file (d_pos d)) l = spec_lines (g_text c)).
+Proof. exact names_partial. Qed.
+Print Assumptions C12_names_partial.
+
+(* ... and fails otherwise: `// doc` / `F,` / `G int // trailing FG` gives G neither. *)
+Theorem C12_names_refuted :
+  exists evs leads d l c, wf evs leads /\ In d (decls_of evs) /\ In l (d_names d) /\ d_cmt d = Some c /\
+    comment_of true (build true evs) (p_file (d_pos d)) l <> spec_lines (g_text c) /\
+    doc_of true true (build true evs) (p_file (d_pos d)) l
+    <> extract_tags true [] (doc_lines_above leads (p_file (d_pos d)) (p_line (d_pos d))).
+Proof. exact names_refuted. Qed.
+Print Assumptions C12_names_refuted.
+
 (* ---- history: the code before the repairs ---- *)
 
 (* `A int // trailing A` / `B int`: Doc(B) was the trailing comment of A. *)
